@@ -126,6 +126,27 @@ Definition tr_step (g : rgraphT) : option rgraphT := option_map (apply_tr g) (fi
 Fixpoint tr_pass (fuel : nat) (g : rgraphT) : rgraphT :=
   match fuel with O => g | S k => match tr_step g with Some g' => tr_pass k g' | None => g end end.
 
+(* the declared shape of the reducer's output after a fold: that of T2's output, also when T2's output has none (then it is
+   CLEARED: the old annotation describes the transposed layout; .scratch/c02p/defect_transpose_reduce_stale_shape.py) *)
+Definition tr_shape_upd {B} (sh : name -> option B) (a : raction) : name -> option B :=
+  match out1 (ra_red a), out1 (ra_T2 a) with
+  | Some ro, Some t2o => fun y => if Nat.eqb y ro then sh t2o else sh y
+  | _, _ => sh
+  end.
+Fixpoint tr_pass_sh {B} (fuel : nat) (g : rgraphT) (sh : name -> option B) : rgraphT * (name -> option B) :=
+  match fuel with
+  | O => (g, sh)
+  | S k => match first_some (decide_tr g) (rt_nodes g) with
+           | Some a => tr_pass_sh k (apply_tr g a) (tr_shape_upd sh a)
+           | None => (g, sh)
+           end
+  end.
+Lemma tr_pass_sh_fst {B} fuel : forall g (sh : name -> option B), fst (tr_pass_sh fuel g sh) = tr_pass fuel g.
+Proof.
+  induction fuel as [|k IH]; intros g sh; simpl; [reflexivity|]. unfold tr_step.
+  destruct (first_some (decide_tr g) (rt_nodes g)); simpl; [apply IH | reflexivity].
+Qed.
+
 (* comparison of graphs up to the name of the created initializers: a ReduceMean is compared through the VALUE of its
    constant axes operand *)
 Definition norm_rm (g : rgraphT) (n : node) : node :=
